@@ -305,6 +305,10 @@ void ConfigObject::RestoreAttribute(const String& attr, bool updateVersion)
 
 
 	} else {
+		/* Nothing to restore for an attribute which was not modified. */
+		if (!original_attributes->Contains(attr))
+			return;
+
 		newValue = oldValue;
 	}
 
